@@ -117,34 +117,39 @@ func BytesCap(name string, n, c int) []byte {
 
 // Str returns an input string of length <= maxLen.
 func Str(name string, maxLen int) string {
-	nm := name
-	n := 0
-	if rec != nil {
-		if v, ok := rec.Inputs[peek(nm)+"#len"]; ok {
-			if f, ok := v.(float64); ok {
-				n = int(f)
-			}
-		}
+	if rec == nil {
+		panic("zzvp: symbolic-only intrinsic called natively without a replay record")
 	}
-	b := rawBytes(name)
-	if n > len(b) {
-		n = len(b)
+	nm := fresh(name)
+	n := 0
+	if f, ok := rec.Inputs[nm+"#len"].(float64); ok {
+		n = int(f)
+	}
+	s, _ := rec.Inputs[nm].(string)
+	b, _ := hex.DecodeString(s)
+	for len(b) < n {
+		b = append(b, 0)
 	}
 	return string(b[:n])
-}
-
-func peek(name string) string {
-	if seq[name] == 0 {
-		return name
-	}
-	return fmt.Sprintf("%s#%d", name, seq[name]+1)
 }
 
 // StrN returns an input string of exactly n bytes.
 func StrN(name string, n int) string { return string(Bytes(name, n)) }
 
 // Atom returns an opaque input string that supports only equality.
-func Atom(name string) string { return fmt.Sprintf("atom-%d", num(name)) }
+func Atom(name string) string {
+	if rec == nil {
+		panic("zzvp: symbolic-only intrinsic called natively without a replay record")
+	}
+	nm := fresh(name)
+	if s, ok := rec.Inputs[nm].(string); ok {
+		if len(s) > 4 && s[:4] == "str:" {
+			return s[4:] // the model value is the identity of this concrete string
+		}
+		return "atom-" + s
+	}
+	return "atom-0"
+}
 
 // Choose forks concretely over 0..k-1 (shape enumeration).
 func Choose(name string, k int) int {
